@@ -24,9 +24,14 @@ class Emitter(object):
         if ctx is None:
             ctx = {}
         def onetime_listener(*args, **ctx):
+            if onetime_listener.called:
+                # still present in the listener snapshot of an enclosing emit
+                return
+            onetime_listener.called = True
             self.off(name, onetime_listener)
             callback(*args, **ctx)
         onetime_listener._ = callback
+        onetime_listener.called = False
         return self.on(name, onetime_listener, ctx)
 
     def emit(self, name, *args):
